@@ -68,6 +68,23 @@ func (r *Rec) Take() []Call {
 	return c
 }
 
+// OwnUpdate is the update a handler returns for the request's own container (besides Rec.Updates).
+func OwnUpdate(id string) *api.ContainerUpdate {
+	u := &api.ContainerUpdate{ContainerId: id, IgnoreFailure: true}
+	u.SetLinuxMemoryLimit(int64(len(id)) + 4096)
+	return u
+}
+
+// updatesFor: the scripted updates, then one for the container the request is about, then one more
+// for another container (so that filtering, reordering or truncation shows).
+func (r *Rec) updatesFor(c *api.Container) []*api.ContainerUpdate {
+	o := r.updates()
+	if c != nil {
+		o = append(o, OwnUpdate(c.GetId()), &api.ContainerUpdate{ContainerId: c.GetId() + "-sibling"})
+	}
+	return o
+}
+
 func (r *Rec) updates() []*api.ContainerUpdate {
 	var o []*api.ContainerUpdate
 	for _, u := range r.Updates {
@@ -118,7 +135,7 @@ func (h HCreate) CreateContainer(_ context.Context, p *api.PodSandbox, c *api.Co
 	if h.R.Adjust != nil {
 		a = proto.Clone(h.R.Adjust).(*api.ContainerAdjustment)
 	}
-	return a, h.R.updates(), nil
+	return a, h.R.updatesFor(c), nil
 }
 
 type HPostCreate struct{ R *Rec }
@@ -145,7 +162,7 @@ func (h HUpdate) UpdateContainer(_ context.Context, p *api.PodSandbox, c *api.Co
 	if err := h.R.add("UpdateContainer", p, c, res, nil); err != nil {
 		return nil, err
 	}
-	return h.R.updates(), nil
+	return h.R.updatesFor(c), nil
 }
 
 type HPostUpdate struct{ R *Rec }
@@ -160,7 +177,7 @@ func (h HStop) StopContainer(_ context.Context, p *api.PodSandbox, c *api.Contai
 	if err := h.R.add("StopContainer", p, c, nil, nil); err != nil {
 		return nil, err
 	}
-	return h.R.updates(), nil
+	return h.R.updatesFor(c), nil
 }
 
 type HRemove struct{ R *Rec }
